@@ -163,7 +163,14 @@ func c12Spare(x ap.Item) {
 
 var c12Gen = rapid.Custom(func(t *rapid.T) ap.Item {
 	depth := rapid.IntRange(0, 3).Draw(t, "depth")
-	g := vocab.NewGen(t, vocab.Opts{MaxDepth: depth, Gob: true, ValueForms: true, MaxNodes: 14, Density: []int{10, 25, 50, 75}})
+	// texts and free strings are hostile now and then (control characters, quotes, backslashes take the escaping paths of the encoders)
+	hostile := func(t *rapid.T) string {
+		if rapid.IntRange(0, 2).Draw(t, "hostile") == 0 {
+			return rapid.SampledFrom([]string{"bell\x07", "unit\x1fsep", "\x01\x02", "quote\"d", "back\\slash", "nul\x00", "line\nfeed\ttab", "\u2028sep", "mixed \x03 and \x1e"}).Draw(t, "text")
+		}
+		return "plain text " + rapid.SampledFrom([]string{"a", "b", "c"}).Draw(t, "w")
+	}
+	g := vocab.NewGen(t, vocab.Opts{MaxDepth: depth, Gob: true, ValueForms: true, MaxNodes: 14, Density: []int{10, 25, 50, 75}, Text: hostile, Str: hostile})
 	var x ap.Item
 	switch rapid.IntRange(0, 11).Draw(t, "top") {
 	case 0:
@@ -284,6 +291,13 @@ func c12ConcurrentValue(i int, seed int) ap.Item {
 	cells, _ := vocab.SingleCells(true)
 	if i < len(vocab.StructTypes) {
 		x := vocab.Everything(vocab.StructTypes[i], true)
+		if sv, ok := vocab.StructOf(x); ok && i%2 == 0 {
+			// control characters in two text properties: the encoders' escaping paths run concurrently
+			if f := sv.FieldByName("Summary"); f.IsValid() {
+				f.Set(reflect.ValueOf(ap.NaturalLanguageValues{{Ref: "en", Value: ap.Content("bell\x07 and unit\x1fseparator")}, {Ref: "fr", Value: ap.Content("\x01\x02\x03")}}))
+			}
+			sv.FieldByName("Name").Set(reflect.ValueOf(ap.DefaultNaturalLanguageValue("name with \x1e and \x04")))
+		}
 		c12Spare(x)
 		return x
 	}
